@@ -868,3 +868,24 @@ seed("c09-cg-continue-unconfirmed", "C09", SP, """            if resid <= tol {
 seed("c08-cg-restart-full-budget", "C08", SP, "                return self.solve_cg( b, x, max_iter - i, tol ).map( |k| k + i );", "                return self.solve_cg( b, x, max_iter, tol ).map( |k| k + i );", "restart/solve_cg#1")
 seed("c08-qmr-restart-count-dropped", "C08", SP, "                return self.solve_qmr( b, x, max_iter - i, tol ).map( |k| k + i );", "                return self.solve_qmr( b, x, max_iter - i, tol );", "restart/solve_qmr#1")
 seed("c09-bicg-err-instead-of-restart", "C09", SP, "                return self.solve_bicg( b, x, max_iter - iter, tol, itol ).map( |k| k + iter );", "                return Err( err );", "unconfirmed-restarts/solve_bicg#1")
+
+# ---------------------------------------------------------------- rules added for the round-5 / round-6 mutants
+seed("c03-delete-row-clears", "C03", OPS, "        self.rows -= 1;\n    }", "        self.rows -= 1;\n        if self.mat.is_empty() { self.clear(); }\n    }", "edit/frame/delete_row")
+seed("c03-norm-inf-row-shortcut", "C03", FUN, "    pub fn norm_inf(&self) -> f64 {\n        let mut result: f64 = 0.0;", "    pub fn norm_inf(&self) -> f64 {\n        if self.rows == 1 { return self.norm_max(); }\n        let mut result: f64 = 0.0;", "norm-orientation/norm_inf/shortcut")
+seed("n-c03-norm-inf-col-shortcut", "C03", FUN, "    pub fn norm_inf(&self) -> f64 {\n        let mut result: f64 = 0.0;", "    pub fn norm_inf(&self) -> f64 {\n        if self.cols == 1 { return self.norm_max(); }\n        let mut result: f64 = 0.0;", "SILENT", "neutral: with one column every row sum is one entry")
+seed("c06-scale-zero-shortcut", "C06", SP, "    pub fn scale( &mut self, value: &T ) {\n", "    pub fn scale( &mut self, value: &T ) {\n        if *value == T::zero() { return; }\n", "scale/shortcut")
+seed("n-c06-scale-one-shortcut", "C06", SP, "    pub fn scale( &mut self, value: &T ) {\n", "    pub fn scale( &mut self, value: &T ) {\n        if *value == T::one() { return; }\n", "SILENT", "neutral: scaling by one changes nothing")
+seed("c06-triplets-dedup", "C06", SP, "        triplets.sort_by_key( |triplet| triplet.1 ); // Sort by column first \n", "        triplets.sort_by_key( |triplet| triplet.1 ); // Sort by column first \n        triplets.dedup_by_key( |triplet| triplet.1 );\n", "lengths/from_triplets/keeps-all")
+seed("c06-sort-conditional", "C06", SP, "        triplets.sort_by_key( |triplet| triplet.1 ); // Sort by column first \n", "        if triplets.len() > 2 { triplets.sort_by_key( |triplet| triplet.1 ); }\n", "lengths/from_triplets-sort")
+seed("c04-det-skips-decompose", "C04", BD, "        self.decompose( &mut au, &mut al, &mut index, &mut d );\n        let mut dd = d.clone();", "        if self.m1 > 0 { self.decompose( &mut au, &mut al, &mut index, &mut d ); } else { d = T::one(); }\n        let mut dd = d.clone();", "det")
+seed("c04-al-m2-columns", "C04", BD, "        let mut al = Matrix::new( self.n, self.m1, T::zero() );\n        let mut index = Vector::new( self.n, 0 );\n        let mut d = T::zero();\n        self.decompose( &mut au, &mut al, &mut index, &mut d );\n        let mut dd", "        let mut al = Matrix::new( self.n, self.m2, T::zero() );\n        let mut index = Vector::new( self.n, 0 );\n        let mut d = T::zero();\n        self.decompose( &mut au, &mut al, &mut index, &mut d );\n        let mut dd", "workspace/det")
+seed("c04-resize-early-return", "C04", BD, "    pub fn resize(&mut self, n: usize, m1: usize, m2: usize) {\n", "    pub fn resize(&mut self, n: usize, m1: usize, m2: usize) {\n        if n == self.n && m1 + m2 == self.m1 + self.m2 { return; }\n", "shape/resize/every-path")
+seed("c11-derivative-at-shortcut", "C11", PM, "        let p = self.derivative_n( n );\n        p.eval( x )", "        if self.coeffs.len() <= 1 { return T::zero(); }\n        let p = self.derivative_n( n );\n        p.eval( x )", "derivative_at")
+seed("c12-extra-refusal", "C12", PA, "        if v.is_zero() { return Err( \"Polynomial.polydiv() divide by zero polynomial\" ); }\n", "        if v.is_zero() { return Err( \"Polynomial.polydiv() divide by zero polynomial\" ); }\n        if v.coeffs[ 0 ] == T::zero() { return Err( \"Polynomial.polydiv() divide by zero polynomial\" ); }\n", "zero-divisor/only")
+seed("c19-output-no-truncate", "C19", ME1, "        let mut f = File::create(filename).expect(\"Unable to create file\");", "        let mut f = std::fs::OpenOptions::new().write( true ).create( true ).open( filename ).expect(\"Unable to create file\");", "io-truncates")
+seed("n-c19-output-truncate", "C19", ME1, "        let mut f = File::create(filename).expect(\"Unable to create file\");", "        let mut f = std::fs::OpenOptions::new().write( true ).create( true ).truncate( true ).open( filename ).expect(\"Unable to create file\");", "SILENT", "neutral: the same open mode spelled out")
+seed("c10-laguer-lost-else", "C10", PM, "            if iter % MT != 0 { *x = x1; } else { *x -= dx * frac[ iter / MT ]; }", "            if iter % MT == 0 { *x -= dx * frac[ iter / MT ]; }\n            *x = x1;", "no-dead-store")
+seed("c10-triple-root-c", "C10", PM, "            roots[0] = -b / ( 3. * a );", "            roots[0] = -c / ( 3. * a );", "cardano-branch/value")
+seed("c10-quadratic-no-conj", "C10", PM, "        let mut sgn: f64 = ( b.conj() * discriminant.sqrt() ).real;", "        let mut sgn: f64 = ( b * discriminant.sqrt() ).real;", "quadratic-sign")
+seed("c15-norm-p-rejects-one", "C15", VF, "    pub fn norm_p(&self, p: f64 ) -> f64 {\n", "    pub fn norm_p(&self, p: f64 ) -> f64 {\n        if !( p > 1.0 ) { panic!( \"Vector norm_p: the exponent must be at least 1.\" ); }\n", "abs-norms/norm_p/domain")
+seed("n-c15-norm-p-rejects-below-one", "C15", VF, "    pub fn norm_p(&self, p: f64 ) -> f64 {\n", "    pub fn norm_p(&self, p: f64 ) -> f64 {\n        if p < 1.0 { panic!( \"Vector norm_p: the exponent must be at least 1.\" ); }\n", "SILENT", "neutral inside the property's exponent domain [1, 8]")
